@@ -120,7 +120,8 @@ def nudRbp (tok : String) : Option (List String) :=
     the source in a normalised form (`bp` = the binding power of the function's own token; a local that names
     the value is resolved and unexported helper methods are followed, so the fact does not depend on how the
     call is written, and the parser functions are reached through the dispatch tables, so it does not depend
-    on what they are called): own power for the left-associative operators and unary minus, own power − 1 for
+    on what they are called): own power for the left-associative operators, the power of `{` for the operand of a
+    unary minus (above every binary operator, below the postfix brackets and the dot; F42), own power − 1 for
     `:=`, 0 for both branches of `? :` and for bracketed operands -/
 theorem fact_led_right_binding_powers :
     (["typeMult", "typeDiv", "typeMod", "typePlus", "typeMinus", "typeConcat", "typeEqual", "typeNotEqual", "typeLess",
@@ -129,7 +130,7 @@ theorem fact_led_right_binding_powers :
     ledRbp "typeAssign" = some ["bp-1"] ∧
     ledRbp "typeCondition" = some ["0", "0"] ∧
     ledRbp "typeBracketOpen" = some ["0"] ∧ ledRbp "typeParenOpen" = some ["0"] ∧ ledRbp "typeSort" = some ["0"] ∧
-    nudRbp "typeMinus" = some ["bp"] ∧ nudRbp "typeParenOpen" = some ["0"] ∧
+    nudRbp "typeMinus" = some ["bp:BraceOpen"] ∧ nudRbp "typeParenOpen" = some ["0"] ∧
     Generated.parseExprArgs.lookup "Parse" = some ["0"] := by decide
 
 /-- the token types that have a nud and a led in jparse.go (sorted: the order of a map literal
@@ -276,7 +277,7 @@ def top : E → Nat
     a token without binding power (a closing bracket, a separator, the end) can follow them. -/
 def stop : E → Nat
   | .bin o _ r => min (bp o.type) (stop r)
-  | .neg _ e => min (bp .minus) (stop e)
+  | .neg _ e => min (bp .braceOpen) (stop e)
   | .cond .. => 0
   | .assign .. => 0
   | .pred .. => bp .bracketOpen
@@ -287,7 +288,7 @@ def stop : E → Nat
 def WF (inp : Input) : E → Prop
   | .atom t n => ∀ pe p, nud inp pe t p = .ok (n, p)
   | .paren o c e => o.type = .parenOpen ∧ c.type = .parenClose ∧ WF inp e
-  | .neg m e => m.type = .minus ∧ WF inp e ∧ bp .minus < top e
+  | .neg m e => m.type = .minus ∧ WF inp e ∧ bp .braceOpen < top e
   | .pred o c l e => o.type = .bracketOpen ∧ c.type = .bracketClose ∧ WF inp l ∧ WF inp e ∧ bp .bracketOpen ≤ stop l
   | .bin o l r => (binNode o.type).isSome = true ∧ WF inp l ∧ WF inp r ∧ bp o.type ≤ stop l ∧ bp o.type < top r
   | .cond q col c t e =>
@@ -313,7 +314,7 @@ theorem top_pos (inp : Input) (e : E) (h : WF inp e) : 0 < top e := by
   | assign v o val => simp only [top]; decide
 
 theorem stop_le_top (e : E) : stop e ≤ top e := by
-  have : bp Tok.minus = 60 := by decide
+  have : bp Tok.braceOpen = 80 := by decide
   cases e <;> simp only [stop, top] <;> omega
 
 theorem assign_lt_top (inp : Input) (e : E) (h : WF inp e) : bp .assign - 1 < top e := by
@@ -472,8 +473,8 @@ theorem parse_into_loop (inp : Input) (e : E) : WF inp e → ∀ (fuel rbp : Nat
     cases fuel with
     | zero => omega
     | succ f =>
-      -- the operand of unary minus is read at the binding power of `-`
-      have hin := ih hwe f (bp Tok.minus) p1 t' rest htop hr1' (by omega) (by omega)
+      -- the operand of unary minus is read above the binary operators (at the binding power of `{`)
+      have hin := ih hwe f (bp Tok.braceOpen) p1 t' rest htop hr1' (by omega) (by omega)
       obtain ⟨p2, he2, hr2, hb2⟩ := inLoop_stops inp f _ _ t' rest _ _ hin (by omega)
       rw [parseExpr_step inp (f + 1) rbp p p1 hne ha, hpt]
       have hnud : nud inp (parseExpr inp (f + 1)) m p1 = .ok (.neg (node inp e), p2) := by
@@ -765,14 +766,14 @@ example : ∃ p', parseExpr exInput2 (2 * exInput2.size + 8) 0 { lex := st 2, to
 def exInput3 : Input := #[45, 97, 91, 98, 93, 32, 42, 32, 99, 46, 100]
 
 def exTree3 : E :=
-  .neg (tk .minus 0 1)
-    (.bin (tk .mult 6 7)
-      (.pred (tk .bracketOpen 2 3) (tk .bracketClose 4 5) (leaf exInput3 (tk .name 1 2)) (leaf exInput3 (tk .name 3 4)))
-      (.bin (tk .dot 9 10) (leaf exInput3 (tk .name 8 9)) (leaf exInput3 (tk .name 10 11))))
+  .bin (tk .mult 6 7)
+    (.neg (tk .minus 0 1)
+      (.pred (tk .bracketOpen 2 3) (tk .bracketClose 4 5) (leaf exInput3 (tk .name 1 2)) (leaf exInput3 (tk .name 3 4))))
+    (.bin (tk .dot 9 10) (leaf exInput3 (tk .name 8 9)) (leaf exInput3 (tk .name 10 11)))
 
 theorem exWF3 : WF exInput3 exTree3 :=
-  ⟨rfl, ⟨rfl, ⟨rfl, rfl, wf_leaf _ _ rfl, wf_leaf _ _ rfl, by decide⟩,
-    ⟨rfl, wf_leaf _ _ rfl, wf_leaf _ _ rfl, by decide, by decide⟩, by decide, by decide⟩, by decide⟩
+  ⟨rfl, ⟨rfl, ⟨rfl, rfl, wf_leaf _ _ rfl, wf_leaf _ _ rfl, by decide⟩, by decide⟩,
+    ⟨rfl, wf_leaf _ _ rfl, wf_leaf _ _ rfl, by decide, by decide⟩, by decide, by decide⟩
 
 theorem exStream3 : Stream exInput3 (st 1) (toks exTree3 ++ [tk .eof 11 11]).tail := by
   simp only [exTree3, leaf, toks, List.cons_append, List.nil_append, List.tail_cons]
@@ -787,9 +788,10 @@ theorem exStream3 : Stream exInput3 (st 1) (toks exTree3 ++ [tk .eof 11 11]).tai
   refine .cons _ (st 11) _ _ (by intro b; cases b <;> rfl) ?_
   exact .nil _
 
-/-- the postfix predicate binds tightest, then `.`, then `*`, and unary minus takes the whole product -/
+/-- the postfix predicate binds tightest, then `.`; unary minus takes `a[b]` only (it binds tighter than `*`,
+    F42), and the product groups the negated operand with `c.d` -/
 example : ∃ p', parseExpr exInput3 (2 * exInput3.size + 8) 0 { lex := st 1, tok := tk .minus 0 1 }
-      = .ok (.neg (.numop .mul (.predRaw (.name "a") (.name "b")) (.dot (.name "c") (.name "d"))), p') := by
+      = .ok (.numop .mul (.neg (.predRaw (.name "a") (.name "b"))) (.dot (.name "c") (.name "d")), p') := by
   obtain ⟨p', h, _⟩ := parse_reads_back_budget exInput3 exTree3 exWF3 { lex := st 1, tok := tk .minus 0 1 }
     (tk .eof 11 11) rfl ⟨rfl, exStream3⟩
   refine ⟨p', ?_⟩
